@@ -7,4 +7,8 @@ import KmipGen.Skeleton
 -/
 namespace Kmip
 theorem GenC17_Serve_skeleton : KmipGen.skel_Server_Serve = ExpectSkel.skel_Server_Serve := by decide
+/-- "returns nil when the failure is caused by Shutdown" rests on the ORDER in which Shutdown does things: the done channel is
+    closed before the listener is (so that the accept loop, woken by the listener's error, finds the signal) -/
+theorem GenC17_Shutdown_skeleton : KmipGen.skel_Server_Shutdown = ExpectSkel.skel_Server_Shutdown := by decide
+
 end Kmip
